@@ -88,4 +88,121 @@ theorem ediv_succ_of_not_dvd {T n : Int} (hn : 0 < n) (h : (T + 1) % n ≠ 0) :
       nlinarith
   omega
 
+/-! ## the updates leave the accumulated work alone -/
+
+theorem updateCenters_accWork (p : RParams ℝ) (s : RState ℝ) (tgt : List ℝ) (lam : ℝ) :
+    (updateCenters p s tgt lam).accWork = s.accWork := rfl
+
+theorem cmu_accWork (p : RParams ℝ) (c : Clock) (s : RState ℝ) :
+    (centersMovingUpdate p c s).accWork = s.accWork := by
+  unfold centersMovingUpdate
+  cases p.targetCenters with
+  | none => rfl
+  | some tgt =>
+    dsimp only
+    split_ifs <;> rfl
+
+theorem kmu_accWork (p : RParams ℝ) (c : Clock) (s : RState ℝ) (xs : List ℝ) :
+    (kMovingUpdate p c s xs).accWork = s.accWork := by
+  unfold kMovingUpdate
+  dsimp only
+  split_ifs <;> rfl
+
+/-! ## projections of one `update()` -/
+
+/-- the state the force-constant update starts from -/
+noncomputable def preK (p : RParams ℝ) (c : Clock) (s : RState ℝ) : RState ℝ :=
+  if p.kind = .walls then s else centersMovingUpdate p c s
+
+theorem restraintStep_stage (p : RParams ℝ) (c : Clock) (s : RState ℝ) (xs : List ℝ) :
+    (restraintStep p c s xs).1.stage = (kMovingUpdate p c (preK p c s) xs).stage := rfl
+theorem restraintStep_k (p : RParams ℝ) (c : Clock) (s : RState ℝ) (xs : List ℝ) :
+    (restraintStep p c s xs).1.k = (kMovingUpdate p c (preK p c s) xs).k := rfl
+theorem restraintStep_centers (p : RParams ℝ) (c : Clock) (s : RState ℝ) (xs : List ℝ) :
+    (restraintStep p c s xs).1.centers = (kMovingUpdate p c (preK p c s) xs).centers := rfl
+
+/-! ## histories -/
+
+def opAdv : ROp ℝ → Nat
+  | .step _ => 1
+  | _ => 0
+
+def advN : List (ROp ℝ) → Nat
+  | [] => 0
+  | op :: r => opAdv op + advN r
+
+def opXs : ROp ℝ → List ℝ
+  | .step xs => xs
+  | .cont xs => xs
+  | .restart xs => xs
+
+def opClock (c : Clock) : ROp ℝ → Clock
+  | .step _ => c.tick false
+  | .cont _ => c.tick true
+  | .restart _ => ({ it := c.it, itRestart := c.it, first := true, cont := false } : Clock).tick false
+
+noncomputable def opPre (p : RParams ℝ) (s : RState ℝ) : ROp ℝ → RState ℝ
+  | .restart _ => reloadR p s
+  | _ => s
+
+theorem rApply_clock (p : RParams ℝ) (r : RRun ℝ) (op : ROp ℝ) :
+    (rApply p r op).clock = opClock r.clock op := by
+  cases op <;> rfl
+
+theorem rApply_s (p : RParams ℝ) (r : RRun ℝ) (op : ROp ℝ) :
+    (rApply p r op).s = (restraintStep p (opClock r.clock op) (opPre p r.s op) (opXs op)).1 := by
+  cases op <;> rfl
+
+theorem rRun_cons (p : RParams ℝ) (r : RRun ℝ) (op : ROp ℝ) (ops : List (ROp ℝ)) :
+    rRun p r (op :: ops) = rRun p (rApply p r op) ops := rfl
+
+/-- invariants indexed by the number of advancing steps propagate along any history -/
+theorem rRun_induct (p : RParams ℝ) (Inv : RRun ℝ → Int → Prop)
+    (hstep : ∀ r T op, 0 ≤ T → Inv r T → Inv (rApply p r op) (T + (opAdv op : Int)))
+    (ops : List (ROp ℝ)) (r : RRun ℝ) (T : Int) (hT : 0 ≤ T) (h : Inv r T) :
+    Inv (rRun p r ops) (T + (advN ops : Int)) := by
+  induction ops generalizing r T with
+  | nil => simpa [rRun, advN] using h
+  | cons op ops ih =>
+    rw [rRun_cons]
+    have := ih (rApply p r op) (T + (opAdv op : Int)) (by positivity) (hstep r T op hT h)
+    simpa [advN, add_assoc] using this
+
+/-! ### the clock after each kind of operation -/
+
+structure ClockOK (p : RParams ℝ) (c : Clock) (T : Int) : Prop where
+  first : c.first = false
+  it : c.it = p.firstStep + T
+  le : c.itRestart ≤ c.it
+
+theorem opClock_step {c : Clock} (h : c.first = false) (xs : List ℝ) :
+    opClock c (.step xs) = { c with it := c.it + 1, cont := false } := by
+  simp [opClock, Clock.tick, h]
+
+theorem opClock_cont {c : Clock} (h : c.first = false) (xs : List ℝ) :
+    opClock c (.cont xs) = { c with cont := true } := by
+  simp [opClock, Clock.tick, h]
+
+theorem opClock_restart (c : Clock) (xs : List ℝ) :
+    opClock c (.restart xs) = { it := c.it, itRestart := c.it, first := false, cont := false } := by
+  simp [opClock, Clock.tick]
+
+theorem clockOK_op {p : RParams ℝ} {c : Clock} {T : Int} (h : ClockOK p c T) (op : ROp ℝ) :
+    ClockOK p (opClock c op) (T + (opAdv op : Int)) := by
+  cases op with
+  | step xs =>
+    rw [opClock_step h.first]
+    exact ⟨h.first, by simp [opAdv, h.it, add_assoc], by have := h.le; simp; omega⟩
+  | cont xs =>
+    rw [opClock_cont h.first]
+    exact ⟨h.first, by simp [opAdv, h.it], h.le⟩
+  | restart xs =>
+    rw [opClock_restart]
+    exact ⟨rfl, by simp [opAdv, h.it], le_refl _⟩
+
+theorem clockOK_init (p : RParams ℝ) (k0 : ℝ) (x0 : List ℝ) :
+    ClockOK p (opClock (rInit p k0).clock (.step x0)) 0 := by
+  simp [opClock, Clock.tick, rInit]
+  exact ⟨rfl, by simp, le_refl _⟩
+
 end Cv.C06
